@@ -7,9 +7,11 @@ import (
 	"io"
 	"os"
 	"os/exec"
+	"runtime"
 	"runtime/debug"
 	"runtime/pprof"
 	"strings"
+	"syscall"
 	"time"
 
 	"verifharness/props"
@@ -165,6 +167,9 @@ func supervise(prop, tier string) int {
 	cmd.Env = append(os.Environ(), "VERIF_SUPERVISED=1")
 	cmd.Stdout = os.Stdout
 	cmd.Stdin = nil
+	// the child never outlives the supervisor (the death signal is tied to the creating thread: keep it)
+	runtime.LockOSThread()
+	cmd.SysProcAttr = &syscall.SysProcAttr{Pdeathsig: syscall.SIGKILL}
 	t := &tail{max: 1 << 16}
 	cmd.Stderr = io.MultiWriter(os.Stderr, t)
 	err = cmd.Run()
